@@ -21,26 +21,35 @@ LEAN_TARGETS = ["LoguruModel.Props.C01"]
 AUDIT_FILE = "LoguruModel/Audit/C01.lean"
 DRIVER = "C01"
 RULE = ("operation histories (add/remove/remove()/configure/level/enable/disable/log, ~8 % malformed calls) over the "
-        "module-name alphabet {'', None, a, ab, a.b, a.bc, a.b.c, 'a.', a..b, .a, b}, thresholds and log levels around "
-        "the level numbers, filters none/''/name/dict/callable, ~12 % of the sinks with a stop() that raises (fault inside "
-        "remove/remove()/configure), ~30 % of the handlers on a non-default emit path (colorize=True, markup or function format, "
-        "catch=True), levels created / updated at run time with or without colour or icon and used by NAME; every op's observable (returned id, error kind, ordered "
-        "list of receiving handler ids, lazy evaluation counts) is compared between implementation, Python spec oracle "
-        "and Lean model.  non-trivial = the history contains a delivering log and an enable/disable issued after a "
-        "log from a module that call affects; distinct by the whole history")
+        "module-name alphabet {'', None, a, ab, a.b, a.bc, a.b.c, 'a.', a..b, .a, b, '.', 'a.b.', a.b.c.d, non-ASCII}, "
+        "thresholds and log levels around the level numbers (ints, bools, names, the named methods, level= omitted), "
+        "filters none/''/name/dict/callable (callables returning any truthy/falsy value), every in-process sink kind add() "
+        "dispatches on (callable, stream, logging.Handler, callable object, object with write() and __call__), non-sinks and "
+        "unknown keywords, ~12 % of the sinks with a stop()/close() that raises (fault inside remove/remove()/configure), "
+        "~30 % of the handlers on a non-default emit path (colorize=True, markup or function format, catch=True), levels "
+        "created / updated at run time with or without colour or icon and used by NAME (incl. the empty name), calls issued "
+        "through loggers derived by bind()/opt()/patch(), and log calls OVERLAPPED by a complete enable()/disable() run from "
+        "inside the lock-free reader (right after it fetched the rules / at its first access to the core); every op's "
+        "observable (returned id, error kind, ordered list of receiving handler ids, lazy evaluation counts) is compared "
+        "between implementation, Python spec oracle and Lean model.  non-trivial = the history contains a delivering log "
+        "and an enable/disable issued after a log from a module that call affects; distinct by the whole history")
 TRUSTED = [
     "user callables (filters) are oracles: a fixed table-free family k -> predicate(level no, module) on both sides",
-    "argument validation (mkFilter/mkThreshold/levelDecision) is shared by Lean model and Lean spec; the Python "
-    "oracle restates it independently",
+    "the Lean spec reads argument kinds (mkFilter/mkThreshold) and levelDecision by hand; the model interprets the "
+    "regenerated if/elif chains of add() and is proved equal; the Python oracle restates validation independently",
+    "an overlapped call is produced in ONE thread: the core's class is swapped for a subclass whose attribute read runs "
+    "the complete enable()/disable() (value fetched first) - the same interleaving as parking the reader thread there",
     "the sink labels use the count of attempted add() calls (re-read from core.handlers_count only after a configure() "
     "that raised)",
 ]
 ASSUMPTIONS = ["no LOGURU_*_NO environment overrides of the default level numbers",
-               "single thread (C02 covers concurrency)", "callable sinks, enqueue=False, catch=False"]
+               "one thread; the only interleaving is a complete enable()/disable() inside a log call (C02 covers the rest)",
+               "in-process sinks, enqueue=False"]
 
-NAMES = ["", None, "a", "ab", "a.b", "a.bc", "a.b.c", "a.", "a..b", ".a", "b"]
+NAMES = ["", None, "a", "ab", "a.b", "a.bc", "a.b.c", "a.", "a..b", ".a", "b", ".", "a.b.", "a.b.c.d", "\u00e4.\u00f6"]
 DEFAULT_LEVELS = {"TRACE": 5, "DEBUG": 10, "INFO": 20, "SUCCESS": 25, "WARNING": 30, "ERROR": 40, "CRITICAL": 50}
-LEVEL_NAMES = list(DEFAULT_LEVELS) + ["NEW", "N2"]
+LEVEL_NAMES = list(DEFAULT_LEVELS) + ["NEW", "N2", ""]          # "" is a legal level name
+RUNTIME_LEVELS = ["NEW", "N2", "NEW", "N2", ""]
 NUMS = [0, 4, 5, 6, 9, 10, 11, 15, 19, 20, 21, 24, 25, 26, 29, 30, 31, 39, 40, 41, 49, 50, 51, 60]
 
 
@@ -61,8 +70,15 @@ def oracle_filter(k, no, name):
 #   ["levelbad"] ["en", mod] ["dis", mod] ["enbad"] ["disbad"]      mod: None | str
 #   ["log", level, mod, lazy]
 #   ["cfg", reset(bool), [sub-ops: level / en / dis / add]]
+#   ["logd", level, mod, lazy, at, name, status]   a log call overlapped by one complete enable(name) (status True) /
+#                                     disable(name) issued from inside the reader: at "rules" = right after `_log`
+#                                     fetched core.activation_list / activation_none on a cache miss, at "early" =
+#                                     at its first access to the core; if the reader never gets there the change
+#                                     runs right after the call
 def l_level(l):
-    return {"n": lambda: "n:" + enc(l[1]), "i": lambda: "i:%d" % l[1], "bad": lambda: "bad"}[l[0]]()
+    # ["m", NAME]: the named method (logger.info(...)) = the level by name;  ["b", bool]: a bool IS an int in Python
+    return {"n": lambda: "n:" + enc(l[1]), "m": lambda: "n:" + enc(l[1]), "i": lambda: "i:%d" % l[1],
+            "b": lambda: "i:%d" % int(l[1]), "bad": lambda: "bad", "dflt": lambda: "dflt"}[l[0]]()
 
 
 def l_mod(m):
@@ -86,7 +102,8 @@ def l_filter(f):
 
 
 def l_no(n):
-    return {"none": lambda: "none", "i": lambda: "i:%d" % n[1], "bad": lambda: "bad"}[n[0]]()
+    return {"none": lambda: "none", "i": lambda: "i:%d" % n[1], "b": lambda: "i:%d" % int(n[1]),
+            "bad": lambda: "bad"}[n[0]]()
 
 
 def l_op(op):
@@ -96,6 +113,12 @@ def l_op(op):
                                     1 if precolorizes(op) else 0)
     if t == "rm":
         return "rm %d" % op[1]
+    if t == "addbad":
+        return "addbad"
+    if t == "via":
+        # which derived logger issues the following calls: they all share the core, the model has ONE logger -
+        # the line carries a no-op (plain read of a built-in level)
+        return "level %s none 0" % enc("INFO")
     if t in ("rmall", "rmbad", "levelbad", "enbad", "disbad"):
         return t
     if t == "level":
@@ -104,6 +127,9 @@ def l_op(op):
         return "%s %s" % (t, l_mod(op[1]))
     if t == "log":
         return "log %s %s %d" % (l_level(op[1]), l_mod(op[2]), 1 if op[3] else 0)
+    if t == "logd":
+        return "logd %s %s %d %d %s %d" % (l_level(op[1]), l_mod(op[2]), 1 if op[3] else 0,
+                                           1 if op[4] == "early" else 0, l_mod(op[5]), 1 if op[6] else 0)
     if t == "cfg":
         return ";".join(["cfg %d" % (1 if op[1] else 0)] + [l_op(s) for s in op[2]])
     raise ValueError(op)
@@ -143,10 +169,12 @@ class Unhashable(list):
 
 
 def py_level(l):
-    if l[0] == "n":
+    if l[0] in ("n", "m"):
         return l[1]
     if l[0] == "i":
         return l[1]
+    if l[0] == "b":
+        return bool(l[1])
     return [None, 2.5, Unhashable([1])][l[1] % 3] if len(l) > 1 else None
 
 
@@ -158,7 +186,9 @@ def py_filter(f):
         return f[1]
     if t == "c":
         k = f[1]
-        return lambda record, k=k: oracle_filter(k, record["level"].no, record["name"])
+        # Handler.emit tests `if not self._filter(record)`: only the TRUTH VALUE of what the callable returns counts
+        yes, no = TRUTHY[k % len(TRUTHY)], FALSY[k % len(FALSY)]
+        return lambda record, k=k: yes if oracle_filter(k, record["level"].no, record["name"]) else no
     if t == "builtin":
         return builtins.filter
     if t == "bad":
@@ -171,8 +201,17 @@ def py_filter(f):
     return d
 
 
+TRUTHY = [True, 1, "x", [0], 2.5, (None,)]
+FALSY = [False, 0, "", [], None, 0.0]
+
 CODE_PLAIN = compile("logger.log(lvl, 'm')", "<c01>", "exec")
 CODE_LAZY = compile("logger.opt(lazy=True).log(lvl, '{}{k}', t1, k=t2)", "<c01>", "exec")
+
+
+METHOD_CODE = {}
+for _n in DEFAULT_LEVELS:
+    METHOD_CODE[(_n, False)] = compile("logger.%s('m')" % _n.lower(), "<c01>", "exec")
+    METHOD_CODE[(_n, True)] = compile("logger.opt(lazy=True).%s('{}{k}', t1, k=t2)" % _n.lower(), "<c01>", "exec")
 
 
 class FailingStopSink:
@@ -188,27 +227,131 @@ class FailingStopSink:
         raise OSError("cannot stop sink %d" % self.label)
 
 
+RULE_ATTRS = ("activation_list", "activation_none")
+_HOOK_CLASSES = {}
+
+
+def hook_core_class(base):
+    """subclass of loguru's Core whose attribute reads can run a callback ONCE: the single-threaded stand-in for
+    "another thread runs a complete enable()/disable() while the lock-free reader `_log` is at this point".  The
+    value is fetched BEFORE the callback runs (the reader got the old object)."""
+    cls = _HOOK_CLASSES.get(base)
+    if cls is None:
+        class HookCore(base):
+            def __getattribute__(self, name):
+                d = object.__getattribute__(self, "__dict__")
+                hook = d.get("_c01_hook")
+                if hook is not None and (hook[0] is None or name in hook[0]):
+                    v = object.__getattribute__(self, name)
+                    d["_c01_hook"] = None
+                    hook[1]()
+                    return v
+                return object.__getattribute__(self, name)
+        cls = _HOOK_CLASSES[base] = HookCore
+    return cls
+
+
+class StreamObj:
+    """a stream-like sink: write() only (no stop, no flush)"""
+
+    def __init__(self, events, label):
+        self.events, self.label = events, label
+
+    def write(self, message):
+        self.events.append(self.label)
+
+
+class CallableObj:
+    """a callable OBJECT that also has a stop() which raises: add() takes it for a callable sink, whose stop is a
+    no-op - removing it never fails"""
+
+    def __init__(self, events, label):
+        self.events, self.label = events, label
+
+    def __call__(self, message):
+        self.events.append(self.label)
+
+    def stop(self):
+        raise OSError("never called")
+
+
+class WriteAndCall(StreamObj):
+    """has write() AND is callable: add() tests `write` first - the message must arrive through write(), once"""
+
+    def __call__(self, message):
+        self.events.append(("called", self.label))
+
+
+def std_handler(events, label, failing_close):
+    import logging
+
+    class H(logging.Handler):
+        def emit(self, record):
+            events.append(label)
+
+        def close(self):
+            logging.Handler.close(self)
+            if failing_close:
+                raise OSError("cannot close handler %d" % label)
+    h = H()
+    h.setLevel(100)          # a standard handler's own level is NOT consulted by Handler.handle()
+    return h
+
+
+SINK_KINDS = ("callable", "stream", "std", "obj", "both")
+DERIVED = 6
+
+
 class Impl:
     def __init__(self):
         from loguru._logger import Core, Logger
-        self.lg = Logger(core=Core(), exception=None, depth=0, record=False, lazy=False, colors=False, raw=False,
-                         capture=True, patchers=[], extra={})
+        self.root = Logger(core=Core(), exception=None, depth=0, record=False, lazy=False, colors=False, raw=False,
+                           capture=True, patchers=[], extra={})
+        self.lg = self.root
         self.events = []
         self.attempts = 0      # add() calls issued so far = label of the next sink
 
-    def _sink(self, failing_stop=False):
+    def derived(self, k):
+        """loggers derived from the root by bind / opt / patch / contextualize-free chains: ONE core behind all"""
+        r = self.root
+        if k == 1:
+            return r.bind(x=1)
+        if k == 2:
+            return r.opt(colors=False, raw=False)
+        if k == 3:
+            return r.patch(lambda record: None)
+        if k == 4:
+            return r.bind(a=1).opt(capture=False).patch(lambda record: record["extra"].update(p=1)).bind(b=2)
+        if k == 5:
+            return self.lg.bind(again=True)          # derived from whatever is current
+        return r
+
+    def _sink(self, failing_stop=False, kind="callable"):
         label = self.attempts
         self.attempts += 1
         ev = self.events
+        if kind == "std":
+            return std_handler(ev, label, failing_stop)
         if failing_stop:
             return FailingStopSink(ev, label)
+        if kind == "stream":
+            return StreamObj(ev, label)
+        if kind == "obj":
+            return CallableObj(ev, label)
+        if kind == "both":
+            return WriteAndCall(ev, label)
         return lambda m: ev.append(label)
 
     def _add_kwargs(self, op):
         prof = emit_profile(op)
         fmt = FORMATS.get(prof["fmt"]) or (lambda record: "{message}\n")
-        return dict(sink=self._sink(stop_fails(op)), level=py_level(op[1]), filter=py_filter(op[2]),
-                    format=fmt, colorize=bool(prof["colorize"]), catch=bool(prof["catch"]))
+        kw = dict(sink=self._sink(stop_fails(op), prof.get("sink", "callable")), level=py_level(op[1]),
+                  filter=py_filter(op[2]), format=fmt, colorize=bool(prof["colorize"]), catch=bool(prof["catch"]))
+        if op[1][0] == "dflt":
+            del kw["level"]                     # add(sink) without level=: the documented default "DEBUG"
+            if op[2][0] == "none":
+                del kw["filter"]                # ... and without filter=: no filter
+        return kw
 
     def do(self, op):
         try:
@@ -220,6 +363,16 @@ class Impl:
         lg, t = self.lg, op[0]
         if t == "add":
             return "id %d" % lg.add(**self._add_kwargs(op))
+        if t == "addbad":
+            # no sink / an unknown keyword: TypeError whatever the other arguments are (they are malformed too)
+            self.attempts += 1
+            if op[1] == "sink":
+                lg.add(42, level="NOPE", filter=builtins.filter)
+            else:
+                lg.add(lambda m: None, level=-5, filter={"a": "NOPE"}, rotation="1 day")
+            return "ok"
+        if t == "via":
+            self.lg = self.derived(op[1]); return "ok"
         if t == "rm":
             lg.remove(op[1]); return "ok"
         if t == "rmall":
@@ -230,6 +383,8 @@ class Impl:
             kw = {}
             if op[2][0] == "i":
                 kw["no"] = op[2][1]
+            elif op[2][0] == "b":
+                kw["no"] = bool(op[2][1])
             elif op[2][0] == "bad":
                 kw["no"] = "15"
             if op[3] == "icon":
@@ -247,6 +402,31 @@ class Impl:
             lg.enable(42); return "ok"
         if t == "disbad":
             lg.disable(4.2); return "ok"
+        if t == "logd":
+            core_ = lg._core
+            base = type(core_)
+            fired = []
+
+            def change(inside=True):
+                if inside:
+                    # a reader that HOLDS the core lock at this point cannot be overlapped here by a writer: the
+                    # change then runs after the call (never block: the lock is not re-entrant)
+                    lk = getattr(core_, "lock", None)
+                    if lk is not None and hasattr(lk, "acquire"):
+                        if not lk.acquire(blocking=False):
+                            return
+                        lk.release()
+                fired.append(1)
+                (lg.enable if op[6] else lg.disable)(op[5])
+            core_.__dict__["_c01_hook"] = (None if op[4] == "early" else RULE_ATTRS, change)
+            core_.__class__ = hook_core_class(base)
+            try:
+                return self._do(["log", op[1], op[2], op[3]])
+            finally:
+                core_.__class__ = base
+                core_.__dict__.pop("_c01_hook", None)
+                if not fired:
+                    change(inside=False)
         if t == "log":
             del self.events[:]
             cnt = [0, 0]
@@ -261,7 +441,10 @@ class Impl:
             ns = {"logger": lg, "lvl": py_level(op[1]), "t1": t1, "t2": t2}
             if op[2] is not None:
                 ns["__name__"] = op[2]
-            exec(CODE_LAZY if op[3] else CODE_PLAIN, ns)
+            if op[1][0] == "m":
+                exec(METHOD_CODE[(op[1][1], bool(op[3]))], ns)
+            else:
+                exec(CODE_LAZY if op[3] else CODE_PLAIN, ns)
             lz = str(cnt[0]) if cnt[0] == cnt[1] else "%d/%d" % tuple(cnt)
             return " ".join(["->"] + [str(i) for i in self.events]) + " lazy=" + lz
         if t == "cfg":
@@ -277,6 +460,8 @@ class Impl:
                 d = {"name": s[1]}
                 if s[2][0] == "i":
                     d["no"] = s[2][1]
+                elif s[2][0] == "b":
+                    d["no"] = bool(s[2][1])
                 elif s[2][0] == "bad":
                     d["no"] = "15"
                 if s[3] == "icon":
@@ -348,7 +533,11 @@ class SpecOracle:
     def level_no(self, l):
         if l[0] == "bad":
             raise SpecErr("TypeError")
-        if l[0] == "n":
+        if l[0] == "b":
+            return int(l[1])
+        if l[0] == "dflt":
+            return self.levels["DEBUG"]          # documented default threshold of add()
+        if l[0] in ("n", "m"):
             if l[1] not in self.levels:
                 raise SpecErr("ValueError")
             return self.levels[l[1]]
@@ -402,7 +591,7 @@ class SpecOracle:
         f = self.mk_filter(op[2])
         if op[1][0] == "bad":
             raise SpecErr("TypeError")
-        thr = self.level_no(op[1]) if op[1][0] == "n" else op[1][1]
+        thr = self.level_no(op[1]) if op[1][0] in ("n", "b", "dflt") else op[1][1]
         if thr < 0:
             raise SpecErr("ValueError")
         self.regs.append((hid, thr, f, stop_fails(op)))
@@ -425,9 +614,9 @@ class SpecOracle:
                 raise SpecErr("ValueError")
             if no[0] == "bad":
                 raise SpecErr("TypeError")
-            if no[1] < 0:
+            if int(no[1]) < 0:
                 raise SpecErr("ValueError")
-            self.levels[name] = no[1]
+            self.levels[name] = int(no[1])
         elif no[0] != "none":
             raise SpecErr("ValueError")      # the severity of an existing level cannot change
 
@@ -435,6 +624,11 @@ class SpecOracle:
         t = op[0]
         if t == "add":
             return "id %d" % self._add(op)
+        if t == "addbad":
+            self.next_id += 1
+            raise SpecErr("TypeError")
+        if t == "via":
+            return "ok"              # bind()/opt()/patch() give another handle on the SAME logger
         if t == "rm":
             hit = [h for h in self.regs if h[0] == op[1]]
             if not hit:
@@ -454,6 +648,17 @@ class SpecOracle:
         if t in ("en", "dis"):
             self.calls.append((op[1], t == "en"))
             return "ok"
+        if t == "logd":
+            # an overlapped call may follow either activation state; at the two fixed yield points the reader has
+            # (rules) already fetched the old rules / (early) not looked at anything yet.  Every LATER call must
+            # follow the completed change.
+            if op[4] == "early":
+                self.calls.append((op[5], bool(op[6])))
+                return self._do(["log", op[1], op[2], op[3]])
+            try:
+                return self._do(["log", op[1], op[2], op[3]])
+            finally:
+                self.calls.append((op[5], bool(op[6])))
         if t == "log":
             if not self.regs:
                 return "-> lazy=0"          # nothing registered: the call is a no-op (even with a bad level)
@@ -501,7 +706,9 @@ def g_level_arg(rng, malformed=False):
             return ["i", -rng.range(1, 3)]
         return ["bad", rng.below(3)]
     if rng.chance(55):
-        return ["n", rng.choice(LEVEL_NAMES[:7] if rng.chance(65) else ["NEW", "N2", "NEW", "N2", "INFO"])]
+        return ["n", rng.choice(LEVEL_NAMES[:7] if rng.chance(65) else RUNTIME_LEVELS + ["INFO"])]
+    if rng.chance(4):
+        return ["b", rng.chance(50)]          # True / False are ints
     return ["i", rng.choice(NUMS)]
 
 
@@ -544,11 +751,15 @@ def g_add(rng, focus, malformed=False):
     lvl = g_level_arg(rng)
     if rng.chance(35):
         lvl = ["i", rng.choice([0, 5, 10])]       # low thresholds so that most logs deliver
+    elif rng.chance(8):
+        lvl = ["dflt"]                            # level= omitted
     op = ["add", lvl, g_filter(rng, focus)]
     stop = rng.chance(12)                          # sink whose stop() raises
     if rng.chance(30):                             # a non-default emit path: colours, markup, format function, catch
         op += [stop, {"colorize": rng.chance(65), "fmt": rng.choice(["str", "markup", "markup", "func"]),
                       "catch": rng.chance(50)}]
+        if rng.chance(40):                         # every kind of sink add() dispatches on (in-process ones)
+            op[4]["sink"] = rng.choice(["stream", "std", "both"] if stop else SINK_KINDS)
     elif stop:
         op.append(True)
     return op
@@ -561,14 +772,15 @@ def g_levelop(rng, malformed=False):
                 ["level", "N3", ["bad"], False], ["level", "N4", ["i", -5], True]][k]
     k = rng.below(5)
     if k == 0:
-        return ["level", rng.choice(["NEW", "N2"]), ["i", rng.choice(NUMS)], rng.chance(30)]
+        return ["level", rng.choice(RUNTIME_LEVELS), ["b", rng.chance(50)] if rng.chance(6) else ["i", rng.choice(NUMS)],
+                rng.chance(30)]
     if k == 1:
         return ["level", rng.choice(LEVEL_NAMES[:7]), ["none"], rng.choice([True, "icon"])]
     if k == 2:
         return ["level", rng.choice(LEVEL_NAMES), ["none"], rng.choice([False, True, "icon"])]
     if k == 3:
-        return ["level", rng.choice(["NEW", "N2"]), ["i", rng.choice(NUMS)], "icon" if rng.chance(40) else False]
-    return ["level", rng.choice(["NEW", "N2"]), ["i", rng.choice(NUMS)], False]      # created without a colour
+        return ["level", rng.choice(RUNTIME_LEVELS), ["i", rng.choice(NUMS)], "icon" if rng.chance(40) else False]
+    return ["level", rng.choice(RUNTIME_LEVELS), ["i", rng.choice(NUMS)], False]      # created without a colour
 
 
 def gen_history(rng):
@@ -579,7 +791,8 @@ def gen_history(rng):
     focus = pool[:rng.range(2, 5)]
     if rng.chance(60):       # a family of related names makes parent/child interplay likely
         focus = rng.choice([["a", "a.b", "a.b.c"], ["a", "ab", "a.b", "a.bc"], ["", "a", None], ["a.", "a..b", "a"],
-                            [".a", "", "a", "b"], ["a.b", "a.bc", "a.b.c", ""]])
+                            [".a", "", "a", "b"], ["a.b", "a.bc", "a.b.c", ""], ["a.b", "a.b.", "a.b.c.d", "."],
+                            ["\u00e4.\u00f6", "\u00e4", "a", None]])
     h = []
     for _ in range(rng.range(1, 3)):
         h.append(g_add(rng, focus))
@@ -588,7 +801,14 @@ def gen_history(rng):
         r = rng.below(100)
         if r < 40:
             bad = rng.chance(4)
-            h.append(["log", g_level_arg(rng, bad), g_mod(rng, focus), rng.chance(50)])
+            lv = g_level_arg(rng, bad)
+            if lv[0] == "n" and lv[1] in DEFAULT_LEVELS and rng.chance(30):
+                lv = ["m", lv[1]]            # through the named method
+            if rng.chance(12):       # overlapped by a complete enable/disable of a related name
+                h.append(["logd", lv, g_mod(rng, focus), rng.chance(50),
+                          "rules" if rng.chance(75) else "early", g_mod(rng, focus), rng.chance(50)])
+            else:
+                h.append(["log", lv, g_mod(rng, focus), rng.chance(50)])
         elif r < 64:
             h.append([rng.choice(["en", "dis"]), g_mod(rng, focus)])
         elif r < 76:
@@ -613,6 +833,11 @@ def gen_history(rng):
                     subs.append(g_add(rng, focus, rng.chance(12)))
                     nadds += 1
             h.append(["cfg", reset, subs])
+        elif r < 97:
+            h.append(["via", rng.below(DERIVED)])
+        elif r < 98:
+            h.append(["addbad", rng.choice(["sink", "kwarg"])])
+            nadds += 1
         else:
             h.append([rng.choice(["rmbad", "enbad", "disbad", "levelbad"])])
     return h
@@ -625,13 +850,14 @@ def classify(history, outs):
     logged = []         # modules that logged so far
     flip_after = False
     for op, o in zip(history, outs):
-        if op[0] == "log":
+        if op[0] in ("log", "logd"):
             if o.startswith("-> ") and not o.startswith("-> lazy"):
                 delivering = True
             if not o.startswith("err"):
                 logged.append(op[2])
-        elif op[0] in ("en", "dis"):
-            if any(is_parent_or_self(op[1], m) for m in logged):
+        if op[0] in ("en", "dis", "logd"):
+            nm = op[5] if op[0] == "logd" else op[1]
+            if any(is_parent_or_self(nm, m) for m in logged):
                 flip_after = True
     return delivering and flip_after
 
@@ -697,11 +923,16 @@ def check_histories(ctx, drv, histories, tag, with_model=True):
             if op[0] == "add" and len(op) > 4:
                 pr = emit_profile(op)
                 ctx.stat("emit:colorize=%d,fmt=%s,catch=%d" % (pr["colorize"], pr["fmt"], pr["catch"]))
-            if op[0] == "log" and op[1][0] == "n" and op[1][1] in ("NEW", "N2") and not o.startswith("err"):
+                ctx.stat("sink:" + pr.get("sink", "callable"))
+            if op[0] in ("log", "logd") and op[1][0] in ("m", "b"):
+                ctx.stat("log:via_method" if op[1][0] == "m" else "log:bool_level")
+            if op[0] == "log" and op[1][0] == "n" and op[1][1] in RUNTIME_LEVELS and not o.startswith("err"):
                 ctx.stat("log:by_name_of_runtime_level")
             if o.startswith("err"):
                 ctx.stat("result:" + o.replace(" ", ":"))
-            elif op[0] == "log":
+            elif op[0] in ("log", "logd"):
+                if op[0] == "logd":
+                    ctx.stat("overlap:" + op[4])
                 ctx.stat("log:delivers" if not o.startswith("-> lazy") else "log:nothing")
                 if op[3]:
                     ctx.stat("lazy:evaluated" if o.endswith("lazy=1") else "lazy:skipped")
@@ -778,6 +1009,31 @@ def exhaustive_histories(names, length):
         yield from rec([], k)
 
 
+def overlap_histories(names, prefix_len):
+    """every history add(0) + <= prefix_len ops from {enable, disable, log} + one overlapped first/cached log + one
+    later log, over `names`"""
+    base = [["add", ["i", 0], ["none"]]]
+    alphabet = []
+    for m in names:
+        alphabet += [["en", m], ["dis", m], ["log", ["n", "INFO"], m, False]]
+
+    def rec(prefix, k):
+        if k == 0:
+            yield prefix
+            return
+        for a in alphabet:
+            yield from rec(prefix + [a], k - 1)
+    for k in range(0, prefix_len + 1):
+        for pre in rec([], k):
+            for m in names:
+                for at in ("rules", "early"):
+                    for p in names:
+                        for st in (False, True):
+                            for m2 in names:
+                                yield base + pre + [["logd", ["n", "INFO"], m, True, at, p, st],
+                                                    ["log", ["n", "INFO"], m2, True]]
+
+
 class fast_sysconfig:
     """`Logger.add` builds an ExceptionFormatter, whose `_get_lib_dirs` calls the (pure, slow) stdlib function
     `sysconfig.get_path` 36 times: 5 ms per add().  Memoise the STDLIB function while the check runs."""
@@ -808,7 +1064,7 @@ def _run(ctx):
     ctx.stat("corpus_histories", len(corpus))
 
     # ---- stream 1: random histories
-    n = ctx.n(4000, 120000) * boost
+    n = ctx.n(4000, 100000) * boost
     batch = []
     for i in range(n):
         h = gen_history(rng)
@@ -830,6 +1086,18 @@ def _run(ctx):
         check_histories(ctx, drv, ex[i:i + 20000], "exhaustive")
     ctx.stat("exhaustive_histories", len(ex))
     ctx.exhaustive = True
+
+    # ---- stream 3: exhaustive overlapped calls (a complete enable/disable inside the reader)
+    if ctx.quick:
+        onames, plen = ["a", "a.b", "ab", None], 1
+    else:
+        onames, plen = ["a", "a.b", "", None], 2
+    ov = list(overlap_histories(onames, plen))
+    for i in range(0, len(ov), 20000):
+        check_histories(ctx, drv, ov[i:i + 20000], "overlap")
+    ctx.stat("overlap_histories", len(ov))
+    ctx.note("overlap: every history 'add(0)' + up to %d ops from {enable, disable, log} + a log overlapped (at the "
+             "rules read / at the first core access) by enable/disable + a later log, over %r" % (plen, onames))
     ctx.note("exhaustive: every history 'add(0)' + up to %d ops from {enable, disable, log INFO lazy} x %r"
              % (length, names))
     if ctx.broken:
